@@ -373,6 +373,9 @@ func RunRouter(t *testing.T, p *plan.Plan, keepLog int) *Result {
 			// grace longer than every dial and I/O time-out in play.
 			s.Settle(150 * time.Second)
 			h.OpenAfterClose = w.OpenEndpoints(vnet.OwnerProxy)
+			if n := vredis.OpenClients(); n > 0 {
+				h.OpenAfterClose = append(h.OpenAfterClose, fmt.Sprintf("%d redis client connection(s)", n))
+			}
 			for _, tag := range h.UpOrder {
 				h.Ups[tag].Stop()
 			}
